@@ -57,6 +57,7 @@ POOL = {
     'P2': dict(g=G_IL, o={'import_paths': [V + 'p2']}, imports=[V + 'p2/sub.lark']),
     'P21': dict(g=G_IL, o={'import_paths': [V + 'p2', V + 'p1']}, imports=[V + 'p2/sub.lark']),
     'A-regex': dict(g=G_A, o={'regex': True}),
+    'L': dict(g='%import common (WS, INT)\nstart: x+\nx: A [B] INT? "!" | "(" x ")" -> grp\nother: B+\nA: "a"\nB: "b"\n%ignore WS\n', o={}),     # used_files holds a PackageResource
     'K': dict(g=G_K, o={}),
     'K-inv': dict(g=G_K, o={'priority': 'invert'}),
     'K-basic': dict(g=G_K, o={'lexer': 'basic'}),
@@ -68,7 +69,7 @@ TEXTS = ['a b c !', 'a !', 'a c !', '( a b ! )', 'a b', 'b b', 'A !', 'a bb !', 
 LARK_VERSIONS = ['1.3.1', '1.3.2', '9.9.9']
 PY_VERSIONS = [None, [3, 11], [3, 13]]
 ERRNOS = ['EIO', 'ENOSPC', 'EACCES', 'EROFS', 'EMFILE', 'EISDIR', 'ENOENT', 'EDQUOT', 'ESTALE']
-CONTENT_KINDS = ['truncate', 'bitflip', 'overwrite', 'zero', 'dup', 'append', 'garbage', 'empty', 'splice_head', 'splice_at', 'splice_payload']
+CONTENT_KINDS = ['truncate', 'bitflip', 'overwrite', 'zero', 'dup', 'append', 'garbage', 'empty', 'splice_head', 'splice_at', 'splice_payload', 'hdr', 'hdr']
 LOAD_EXCS = {'MemoryError': MemoryError, 'RecursionError': RecursionError, 'OSError': OSError, 'KeyError': KeyError, 'EOFError': EOFError}
 
 
@@ -123,7 +124,8 @@ class C12(Check):
     # ------------------------------------------------------------------ plan generation
     def _gen_content_fault(self, rng):
         k = rng.choice(CONTENT_KINDS)
-        f = {'kind': k, 'at': rng.randrange(0, 6000), 'bit': rng.randrange(8), 'len': rng.choice([1, 2, 4, 16, 64, 512]), 'seed': rng.randrange(1, 1000)}
+        f = {'kind': k, 'at': rng.randrange(0, 6000), 'bit': rng.randrange(8), 'len': rng.choice([1, 2, 4, 16, 64, 512]), 'seed': rng.randrange(1, 1000),
+             'variant': rng.randrange(10), 'field': rng.randrange(3)}
         if rng.random() < 0.4:
             f['structural'] = rng.randrange(0, 12)          # bias towards structure boundaries (resolved tolerantly at execution)
         if k.startswith('splice'):
